@@ -158,4 +158,88 @@ theorem record_name (q b X : List Char) (hlen : (q ++ b).length = 6)
     simp only [Nat.sub_self, List.take_zero, List.append_nil]
     rw [hL, stripR_append_allws _ _ hb, hqR]
 
+/-! ### the comment-stripped, right-stripped line has the same columns as the line -/
+
+theorem stripR_decomp (line : List Char) : ∃ t, line = stripR line ++ t ∧ t.all isWs = true := by
+  refine ⟨(line.reverse.takeWhile isWs).reverse, ?_, ?_⟩
+  · unfold stripR
+    rw [← List.reverse_append, List.takeWhile_append_dropWhile, List.reverse_reverse]
+  · have := all_takeWhile isWs line.reverse
+    simpa using this
+
+theorem stripL_append_ws (s q : List Char) (hq : q.all isWs = true) :
+    stripL (s ++ q) = if stripL s = [] then [] else stripL s ++ q := by
+  induction s with
+  | nil =>
+    have := dropWhile_ws_append_of_all q [] hq
+    simp [stripL] at this ⊢
+    exact this
+  | cons c s ih =>
+    unfold stripL at *
+    simp only [List.cons_append, List.dropWhile_cons]
+    by_cases hc : isWs c = true
+    · simp only [hc, if_true]; exact ih
+    · simp [hc]
+
+theorem strip_append_ws (s q : List Char) (hq : q.all isWs = true) : strip (s ++ q) = strip s := by
+  unfold strip
+  rw [stripL_append_ws _ _ hq]
+  split
+  · rename_i h; rw [h]
+  · exact stripR_append_allws _ _ hq
+
+theorem strip_slice_append_ws (Y t : List Char) (a b : Nat) (ht : t.all isWs = true) :
+    strip (slice (Y ++ t) a b) = strip (slice Y a b) := by
+  unfold slice
+  rw [List.drop_append, List.take_append]
+  apply strip_append_ws
+  rw [List.all_eq_true]
+  intro c hc
+  exact List.all_eq_true.mp ht c (List.mem_of_mem_drop (List.mem_of_mem_take hc))
+
+theorem strip_slice_stripR (line : List Char) (a b : Nat) :
+    strip (slice (stripR line) a b) = strip (slice line a b) := by
+  obtain ⟨t, hl, ht⟩ := stripR_decomp line
+  conv => rhs; rw [hl]
+  exact (strip_slice_append_ws _ t a b ht).symm
+
+theorem readFields_congr (rd : List Char → RSlice → Except Err RVal) (l l' : List Char)
+    (slices : List RSlice) (h : ∀ sl ∈ slices, rd l sl = rd l' sl) :
+    readFields rd l slices = readFields rd l' slices := by
+  induction slices with
+  | nil => rfl
+  | cons sl rest ih =>
+    simp only [readFields, h sl (by simp), ih (fun s hs => h s (by simp [hs]))]
+
+/-- for a line without '#' that does not start with white space, parsing the line as the
+dispatcher hands it over (comment-stripped, stripped) is parsing the line itself -/
+theorem parseAtomLine_decomment (L : PdbLayout) (excl : List (List Char)) (ignh : Bool) (line : List Char)
+    (hhash : line.all (· ≠ '#') = true) (hL : stripL line = line) :
+    parseAtomLine L excl ignh (decomment line) = parseAtomLine L excl ignh line := by
+  have hd : decomment line = stripR line := by
+    unfold decomment
+    have := takeWhile_append_of_all (p := fun c => decide (c ≠ '#')) line [] (by simpa using hhash)
+    simp only [List.append_nil, List.takeWhile_nil] at this
+    rw [this]
+    unfold strip
+    rw [hL]
+  unfold parseAtomLine
+  rw [hd, readFields_congr readFieldPdb (stripR line) line]
+  intro sl _
+  unfold readFieldPdb
+  simp only [strip_slice_stripR]
+
+theorem stripL_append_of (q Y : List Char) (hqL : stripL q = q) (hqne : q ≠ []) : stripL (q ++ Y) = q ++ Y := by
+  cases q with
+  | nil => exact absurd rfl hqne
+  | cons c q =>
+    unfold stripL at hqL ⊢
+    simp only [List.cons_append, List.dropWhile_cons] at hqL ⊢
+    by_cases hc : isWs c = true
+    · simp only [hc, if_true] at hqL
+      have := congrArg List.length hqL
+      have hle := (List.dropWhile_sublist (l := q) isWs).length_le
+      simp at this; omega
+    · simp [hc]
+
 end C16
